@@ -38,7 +38,7 @@ type emSnap struct {
 	labels map[string]uint32
 }
 
-var allLabelNames = []string{"l0", "loop", "done", "next", "L4", "skip_5", "a", "zz_end", "lbl", "", ".loc", "twelve_chars", "thirteen_char", "a_label_name_wider_than_any_listing_column"}
+var allLabelNames = []string{"l0", "loop", "done", "next", "L4", "skip_5", "a", "zz_end", "lbl", "", ".loc", "twelve_chars", "thirteen_char", "a_label_name_wider_than_any_listing_column", "a:", "exit:", "l0 "}
 
 func snapOf(em *asm.Emitter) emSnap {
 	s := emSnap{bytes: append([]byte(nil), em.Bytes()...), n: em.Len(), pc: em.PC(), flags: byte(em.Flags()), labels: map[string]uint32{}}
